@@ -362,6 +362,63 @@ def kind_of(al, obj):
     return "scalar"
 
 
+# functions of the family that take a secondary parameter: (name, broadcast keyword, secondary name, values, items)
+SECONDARY = [("log", "x", "base", [2, 10, 0.5], [1.0, 8.0, 64.0, 0.25]),
+             ("midi2str", "midi_number", "sharp", [False, True], [60, 61, 70, 63])]
+# (wrappers of C builtins - absolute, cexp, phase, the math functions - do not accept keyword arguments at all)
+KWNAME = {"factorial": "n", "dB10": "data", "dB20": "data", "sign": "x", "midi2freq": "midi_number",
+          "freq2midi": "freq", "log": "x", "log1p": "x", "ln": "x"}
+
+
+def call_forms(ctx, al, recs):
+    """f(C, p), f(C, name=p), f(x=C), f(x=C, name=p): the i-th output is f(C[i], p) in every calling form."""
+    for kind in ("list", "tuple", "Stream", "generator", "deque", "map"):
+        for name, bname, pname, pvals, items in SECONDARY:
+            f = getattr(al, name)
+            for pv in pvals:
+                want = [f(x, pv) for x in items]
+                for form in ("positional", "keyword", "bcast-keyword", "both-keyword"):
+                    cont, reads = make_container(al, kind, items)
+                    try:
+                        if form == "positional":
+                            res = f(cont, pv)
+                        elif form == "keyword":
+                            res = f(cont, **{pname: pv})
+                        elif form == "bcast-keyword":
+                            res = f(pv if False else cont) if False else f(**{bname: cont, pname: pv})
+                        else:
+                            res = f(**{bname: cont, pname: pv})
+                    except Exception as ex:
+                        ctx.violation("C01:broadcast:raises:%s" % form, {"fn": name, "kind": kind, "form": form,
+                                                                         "error": repr(ex)})
+                        continue
+                    read_at_call = reads()
+                    got = list(res)
+                    ok = len(got) == len(want) and all(same_value(g, w) for g, w in zip(got, want))
+                    recs.append({"what": "bcast", "fn": "%s(%s=%r) %s" % (name, pname, pv, form), "kind": kind,
+                                 "n": len(items), "outkind": kind_of(al, res), "read_at_call": read_at_call,
+                                 "outlen": len(got), "elementwise": bool(ok)})
+                    ctx.count(1, nontrivial_key=("bk", name, kind, repr(pv), form))
+        # keyword form of the broadcast argument for one-parameter functions
+        for name, bname in sorted(KWNAME.items()):
+            f = getattr(al, name)
+            items = [1, 3, 4] if name == "factorial" else [0.25, 1.0, 2.5]
+            cont, reads = make_container(al, kind, items)
+            try:
+                res = f(**{bname: cont})
+            except Exception as ex:
+                ctx.violation("C01:broadcast:raises:keyword", {"fn": name, "kind": kind, "error": repr(ex)})
+                continue
+            read_at_call = reads()
+            got = list(res)
+            want = [f(x) for x in items]
+            ok = len(got) == len(want) and all(same_value(g, w) for g, w in zip(got, want))
+            recs.append({"what": "bcast", "fn": "%s(%s=...)" % (name, bname), "kind": kind, "n": len(items),
+                         "outkind": kind_of(al, res), "read_at_call": read_at_call, "outlen": len(got),
+                         "elementwise": bool(ok)})
+            ctx.count(1)
+
+
 def m2_broadcast(ctx, al):
     d = tlc.scratch_dir("c01b")
     dump = os.path.join(d, "st")
@@ -418,6 +475,7 @@ def m2_broadcast(ctx, al):
             recs.append({"what": "bcast", "fn": name, "kind": kind, "n": n, "outkind": outkind,
                          "read_at_call": read_at_call, "outlen": outlen, "elementwise": bool(ok)})
             ctx.count(1, nontrivial_key=("b", name, kind, n) if n >= 2 else None)
+    call_forms(ctx, al, recs)
     ctx.sample({"broadcast_record": recs[len(recs) // 2]})
     ctx.log("broadcast: %d calls recorded" % len(recs))
     judge(ctx, recs, "C01 broadcast calls")
